@@ -122,9 +122,9 @@ def build(kind, n, edges, pts=None, how=0, weights=None):
     if weights is not None and how == 2:
         how = 0
     earr = np.array(edges, dtype=int).reshape(-1, 2)
-    if how == 2 and n <= 250 and (n + len(edges)) % 3:
-        # edge lists come in whatever integer type the caller's data has
-        earr = earr.astype([np.uint8, np.int16, np.int32, np.uint16][(n + len(edges)) % 4])
+    if how == 2 and n <= 120 and (n + len(edges)) % 3:
+        # edge lists come in whatever integer type the caller's data has (vertex ids up to 120 fit all of these)
+        earr = earr.astype([np.uint8, np.int8, np.int16, np.uint8, np.int32, np.uint16, np.int8][(n * 5 + len(edges)) % 7])
     if how == 2:
         if kind == "U":
             return ms.UndirectedGraph.init_from_edges(earr if len(edges) else None, n)
@@ -427,6 +427,21 @@ def w_random(ctx, rng, i):
     n = int(rng.integers(6, 41 if ctx.tier == "thorough" else 25))
     p = float(rng.uniform(0.03, 0.3))
     edges = gen.random_directed_edges(rng, n, p) if directed else gen.random_undirected_edges(rng, n, p)
+    if directed and rng.random() < 0.2:
+        # n - 1 edges, no directed cycle, no isolated vertex - and still not a tree: one piece carries an undirected-only cycle
+        # (a->b, a->c, b->c), the other pieces are small trees
+        perm = [int(v) for v in rng.permutation(n)]
+        edges = [(perm[0], perm[1]), (perm[0], perm[2]), (perm[1], perm[2])]
+        k = 3
+        while k < n:
+            size = int(min(n - k, rng.integers(2, 5)))
+            if size == 1:
+                edges.append((perm[int(rng.integers(3, k))], perm[k]))     # a lone leftover hangs off an earlier tree piece
+            for j in range(1, size):
+                edges.append((perm[k + int(rng.integers(0, j))], perm[k + j]))
+            k += size
+        if len(edges) != n - 1:
+            edges = edges[: n - 1]
     weights = list(rng.uniform(0.1, 10.0, len(edges)))
     weighted = bool(rng.random() < 0.6)
     if directed and weighted:
